@@ -3,7 +3,7 @@ import json
 
 CHECKS = {
  "C01": ("exploration", "world machine; MODEL = LIVE = REOPEN = RAW(reachable) at every session boundary",
-         "Seeded search over histories x GC placements x session boundaries (~40 s quick, 600 s thorough, 16 processes). A clean batch is evidence, not proof; strength comes from the independent raw-h5py reader, the reference model and thousands of distinct interleavings per batch.", "5 C01"),
+         "Seeded search over histories x GC placements x session boundaries (~40 s quick, 900 s thorough, 16 processes). A clean batch is evidence, not proof; strength comes from the independent raw-h5py reader, the reference model and thousands of distinct interleavings per batch.", "5 C01"),
  "C02": ("exploration", "world machine; independent structural validator (rules R1-R11) on every closed file",
          "Same histories as C01 including removals through both entry points, re-parenting, cross-workspace copies and drillhole groups; every close along the way is validated with sim/rawgeoh5.validate, written from the format documentation without importing geoh5py.", "5 C02"),
  "C05": ("exploration", "world machine (removal-heavy) + concat machine (concatenated holes and data); lookups/listings of removed identifiers, RAW absence at every close, survivors equal the model, refused removals change nothing",
